@@ -37,7 +37,7 @@ func TestC04(t *testing.T) {
 		"1 last/inner block solved (math/big) so the accumulator ≡ 0..4 mod p → lazy h ∈ [p,2^130); 2 ≡ 5..12 → h = 2^130+small; 3 ≡ p−1..p−8 → h just below p; " +
 		"4 the same three targets with r = 0x0ffffffc0ffffffc0ffffffc0fffffff and s = 2^128−1; 5 clamped-max r with all-0xff blocks; 6 r ∈ {0,1,2,3,4,5,2^k,…}; " +
 		"7 blocks from p-related constants (2^128−5, 2^128−1, 0, …) with small r; 8 solved block followed by a partial final block; 9 s chosen so that h+s lands on 2^128−1, 2^128, 2^128+1 (carry boundary of the final addition). " +
-		"Each case runs one-shot Sum and a chunked New/Write*/Sum on every path of the build (default = asm update on amd64, or generic under purego; VerifSumGeneric/VerifNewGeneric = portable code), then Verify with the right tag, flipped bits and wrong lengths. " +
+		"Each case runs one-shot Sum and a chunked New/Write*/Sum on every path of the build (default = asm update on amd64, or generic under purego; VerifSumGeneric/VerifNewGeneric = portable code), then Verify with the right tag, flipped bits and wrong lengths, and the public MAC's Sum(b) append contract (b ‖ tag for prefixes 1,15,16,17,32,100 with no/small/≥16 spare capacity, repeatable Sum, Write-after-Sum panic, inputs unchanged, earlier results re-verified after later calls). " +
 		"Chunk plans: fixed sizes {1,15,16,17,31,32,33,48,64,100}, random 0..40, exact fills of the 16-byte buffer (a, 16−a), sizes 14..18, zero-length writes. " +
 		"distinct key = (path, mode, kind, length class, accumulator class, chunk plan); non-trivial = a tag compared with the reference")
 	m.Assume("executable specification h/ref/poly1305big (math/big Horner evaluation with full reduction), validated by RFC 8439 §2.5.2 and A.3 #1,#5–#11 in its own test; libsodium crypto_onetimeauth_poly1305 and libcrypto EVP_MAC POLY1305 as witnesses (oracle conflicts are inconclusive)")
@@ -118,6 +118,11 @@ func TestC04(t *testing.T) {
 	m.Gate("path_asm_tags_compared", q(5000, 100000), "tags from the assembly path (default build) compared")
 	m.Gate("path_generic_tags_compared", q(5000, 100000), "tags from the portable path (verif hook) compared")
 	m.Gate("path_purego_tags_compared", q(5000, 100000), "tags from the purego build's default path compared")
+	m.Gate("mac_sum_nonempty_prefix_asm", q(5000, 100000), "public MAC.Sum(b) with non-empty b (prefix lengths 1,15,16,17,32,100; no/small/large spare capacity) checked to return b ‖ tag, default (assembly) build")
+	m.Gate("mac_sum_nonempty_prefix_purego", q(5000, 100000), "the same on the purego build")
+	m.Gate("mac_sum_prefix_spare_ge16", q(2000, 40000), "Sum(b) with ≥ 16 bytes of sentinel-filled spare capacity (in-place append)")
+	m.Gate("mac_sum_prefix_no_spare", q(2000, 40000), "Sum(b) with len(b) == cap(b)")
+	m.Gate("write_after_sum_panics_seen", q(5000, 100000), "Write of data after Sum observed to panic (documented)")
 	m.Gate("asm_guard_end_aligned_calls", q(5000, 100000), "assembly-path calls with the message ending exactly at a PROT_NONE page")
 }
 
@@ -592,10 +597,33 @@ func (e *c04Env) judge(c *c04Case, i int64, r *rand.Rand) {
 		}
 	}
 
-	// Verify accepts exactly the specified tag
+	keySnap, msgSnap := c.key, append([]byte{}, c.msg...)
+	inputsIntact := func(where string) {
+		if c.key != keySnap || !bytes.Equal(c.msg, msgSnap) {
+			m.Violation("input-modified:"+where, map[string]any{"key_before": mon.FullHex(keySnap[:]), "key_after": mon.FullHex(c.key[:]), "msg_before": mon.Hex(msgSnap), "msg_after": mon.Hex(c.msg), "variant": e.variant})
+			c.key = keySnap
+			c.msg = append([]byte{}, msgSnap...)
+		}
+	}
+	inputsIntact("sum/write")
+	if !bytes.Equal(e.a1.End(n, nil), msgSnap) {
+		m.Violation("input-modified:guarded-msg", wit(nil))
+	}
+	writeChunks := func(w c04Writer) {
+		off := 0
+		for _, k := range plan {
+			w.Write(c.msg[off : off+k])
+			off += k
+		}
+	}
+
+	e.sumContract(c, i, r, want, plan, planName, wit)
+	inputsIntact("mac-sum-append")
+
+	// Verify accepts exactly the specified tag (MAC.Verify after the chunked writes)
 	okRight := poly1305.Verify(&want, c.msg, &c.key)
 	h := poly1305.New(&c.key)
-	h.Write(c.msg)
+	writeChunks(h)
 	okRight2 := h.Verify(want[:])
 	m.EvalN(2)
 	if !okRight || !okRight2 {
@@ -633,13 +661,14 @@ func (e *c04Env) judge(c *c04Case, i int64, r *rand.Rand) {
 		copy(exp[16:], want[:])
 	}
 	h2 := poly1305.New(&c.key)
-	h2.Write(c.msg)
+	writeChunks(h2)
 	m.Eval()
 	if h2.Verify(exp) {
 		m.Violation("verify-accepts-wrong-length:"+e.defName, wit(map[string]any{"expected": mon.FullHex(exp)}))
 	} else {
 		m.Count("verify_wrong_length_rejected", 1)
 	}
+	inputsIntact("verify")
 	if i < 40 && (c.kind == 1 || c.kind == 3 || c.kind == 4 || c.kind == 8 || c.kind == 9) {
 		m.Sample(map[string]any{"kind": c.kind, "key": mon.FullHex(c.key[:]), "msg": mon.Hex(c.msg), "tag": mon.FullHex(want[:]), "lazy_h": fmt.Sprintf("%x", info.LazyH), "acc_class": acc, "plan": planName})
 	}
@@ -651,4 +680,154 @@ func reverse(b []byte) []byte {
 		out[len(b)-1-i] = b[i]
 	}
 	return out
+}
+
+var c04PrefixLens = []int{1, 15, 16, 17, 32, 100}
+
+const c04Sentinel = 0xA5
+
+// sumContract checks the hash.Hash-style contract of the public poly1305.MAC
+// after a chunked write history: Size() == 16; Sum(b) returns b ‖ tag for
+// empty and non-empty b (every prefix length of c04PrefixLens, without spare
+// capacity, with spare capacity ≥ 16 and with 1..15 bytes of spare capacity,
+// the spare/tail regions pre-filled with a sentinel), leaves b[:len(b)] and
+// everything beyond cap(b) untouched, can be called repeatedly with the same
+// tag, and earlier results stay intact after later calls (no retained
+// aliasing); a Write of data after Sum or Verify panics (documented on MAC).
+// The generic hook MAC (Sum(*[16]byte)) is checked for repeatable Sum.
+func (e *c04Env) sumContract(c *c04Case, i int64, r *rand.Rand, want [16]byte, plan []int, planName string, wit func(map[string]any) map[string]any) {
+	m := e.m
+	h := poly1305.New(&c.key)
+	off := 0
+	for _, k := range plan {
+		h.Write(c.msg[off : off+k])
+		off += k
+	}
+	m.Eval()
+	if sz := h.Size(); sz != 16 {
+		m.Violation("mac-size:"+e.defName, wit(map[string]any{"Size": sz}))
+	}
+	type kept struct {
+		res    []byte
+		expect []byte
+		desc   string
+	}
+	var keep []kept
+	first := h.Sum(nil)
+	m.Eval()
+	if !bytes.Equal(first, want[:]) {
+		m.Violation("mac-sum-append-contract:"+e.defName+":nil", wit(map[string]any{"got": mon.FullHex(first), "plan": planName}))
+	}
+	keep = append(keep, kept{first, append([]byte{}, want[:]...), "Sum(nil)"})
+	for idx, pl := range c04PrefixLens {
+		capMode := (int(i) + idx) % 3
+		spare := 0
+		switch capMode {
+		case 1:
+			spare = 16 + r.IntN(33)
+		case 2:
+			spare = 1 + r.IntN(15)
+		}
+		const tail = 32
+		backing := bytes.Repeat([]byte{c04Sentinel}, pl+spare+tail)
+		prefix := mon.Bytes(r, pl)
+		copy(backing, prefix)
+		b := backing[: pl : pl+spare]
+		res := h.Sum(b)
+		m.Eval()
+		desc := fmt.Sprintf("Sum(prefix len=%d spare=%d)", pl, spare)
+		expect := append(append([]byte{}, prefix...), want[:]...)
+		bad := ""
+		switch {
+		case len(res) != pl+16:
+			bad = "length"
+		case !bytes.Equal(res[:pl], prefix):
+			bad = "prefix-overwritten"
+		case !bytes.Equal(res[pl:], want[:]):
+			bad = "appended-bytes-not-tag"
+		case !bytes.Equal(backing[:pl], prefix):
+			bad = "caller-prefix-modified"
+		}
+		if bad == "" {
+			for _, x := range backing[pl+spare:] {
+				if x != c04Sentinel {
+					bad = "write-beyond-cap"
+					break
+				}
+			}
+		}
+		if bad != "" {
+			m.Violation("mac-sum-append-contract:"+e.defName+":"+bad, wit(map[string]any{"call": desc, "prefix": mon.FullHex(prefix), "result": mon.FullHex(res), "expected": mon.FullHex(expect), "backing_after": mon.FullHex(backing), "plan": planName}))
+		} else {
+			m.Count("mac_sum_nonempty_prefix_"+e.defName, 1)
+			switch capMode {
+			case 0:
+				m.Count("mac_sum_prefix_no_spare", 1)
+			case 1:
+				m.Count("mac_sum_prefix_spare_ge16", 1)
+			case 2:
+				m.Count("mac_sum_prefix_spare_lt16", 1)
+			}
+		}
+		m.Distinct(fmt.Sprintf("%s macsum prefix=%d cap=%d", e.defName, pl, capMode))
+		keep = append(keep, kept{res, expect, desc})
+	}
+	// repeated Sum gives the same tag; earlier results are not disturbed by later calls
+	again := h.Sum(nil)
+	m.Eval()
+	if !bytes.Equal(again, want[:]) {
+		m.Violation("mac-sum-not-repeatable:"+e.defName, wit(map[string]any{"first": mon.FullHex(first), "again": mon.FullHex(again)}))
+	} else {
+		m.Count("mac_sum_repeated_same_tag", 1)
+	}
+	// another MAC working on other data in between (a pooled buffer would show here)
+	var otherKey [32]byte
+	copy(otherKey[:], mon.Bytes(r, 32))
+	o := poly1305.New(&otherKey)
+	o.Write(mon.Bytes(r, 1+r.IntN(80)))
+	o.Sum(make([]byte, 3, 64))
+	for _, k := range keep {
+		if !bytes.Equal(k.res, k.expect) {
+			m.Violation("mac-sum-result-aliased:"+e.defName, wit(map[string]any{"call": k.desc, "now": mon.FullHex(k.res), "was": mon.FullHex(k.expect)}))
+		}
+	}
+	m.Count("earlier_outputs_reverified", len(keep))
+	// documented: writing data after Sum or Verify panics
+	if pv, _ := mon.Panics(func() { h.Write([]byte{1}) }); pv == nil {
+		m.Violation("missing-panic:write-after-sum:"+e.defName, wit(map[string]any{"plan": planName}))
+	} else {
+		m.Count("write_after_sum_panics_seen", 1)
+	}
+	m.Eval()
+	if i%4 == 0 {
+		v := poly1305.New(&c.key)
+		v.Write(c.msg)
+		okv := v.Verify(want[:])
+		pv, _ := mon.Panics(func() { v.Write([]byte{1, 2, 3}) })
+		m.Eval()
+		if !okv {
+			m.Violation("verify-rejects-right-tag:"+e.defName+":mac", wit(nil))
+		}
+		if pv == nil {
+			m.Violation("missing-panic:write-after-verify:"+e.defName, wit(nil))
+		} else {
+			m.Count("write_after_verify_panics_seen", 1)
+		}
+	}
+	// generic hook MAC: Sum(*[16]byte) repeatable, does not disturb the state
+	g := poly1305.VerifNewGeneric(&c.key)
+	off = 0
+	for _, k := range plan {
+		g.Write(c.msg[off : off+k])
+		off += k
+	}
+	var t1, t2 [16]byte
+	g.Sum(&t1)
+	g.Sum(&t2)
+	m.Eval()
+	if t1 != want || t2 != want {
+		m.Violation("mac-sum-not-repeatable:generic", wit(map[string]any{"first": mon.FullHex(t1[:]), "again": mon.FullHex(t2[:])}))
+	} else {
+		m.Count("generic_sum_repeated_same_tag", 1)
+	}
 }
